@@ -356,3 +356,423 @@ pub fn e2_put<S: Src, const K1: usize, const K2: usize, const KE: usize>(s: &mut
     }
     std::mem::forget(store);
 }
+
+// ---------------------------------------------------------------------------------------------
+// controllable wall clock for the store harnesses (read by the `SystemTime::now` stub)
+// ---------------------------------------------------------------------------------------------
+pub static mut CLOCK_NANOS: u64 = 0;
+
+pub fn set_clock_nanos(n: u64) {
+    unsafe { CLOCK_NANOS = n }
+}
+pub fn clock_now() -> std::time::SystemTime {
+    std::time::UNIX_EPOCH + std::time::Duration::from_nanos(unsafe { CLOCK_NANOS })
+}
+
+fn peer(b: u8) -> [u8; 32] {
+    [b; 32]
+}
+
+/// write a namespace (capability) row directly
+pub fn inject_namespace(store: &mut Store, ns: [u8; 32], kind: u8, bytes: [u8; 32]) {
+    store.modify(|t| {
+        t.namespaces.insert(&ns, (kind, &bytes))?;
+        Ok(())
+    }).unwrap();
+}
+
+/// C17: one registration step from an arbitrary valid list of N <= 5 useful peers (distinct
+/// peers P1..PN with strictly increasing symbolic timestamps).  The registered peer is symbolic:
+/// one of the stored ones or a new one.  Afterwards the list is the previous one with the peer moved
+/// (or added) to the front, truncated to the five most recent; another document's list and an
+/// unknown document are unaffected.
+pub fn e2_peers_step<S: Src, const N: usize>(s: &mut S) {
+    let ns = NS;
+    let other = [0x12u8; 32];
+    let mut store = fresh_store();
+    inject_namespace(&mut store, ns, 2, ns);
+    inject_namespace(&mut store, other, 2, other);
+    let mut nanos = [0u64; 5];
+    let mut prev = 0u64;
+    let mut i = 0;
+    while i < N {
+        let d = s.u64();
+        s.assume(d >= 1 && d < (1 << 40));
+        prev += d;
+        nanos[i] = prev;
+        i += 1;
+    }
+    store.modify(|t| {
+        let mut i = 0;
+        while i < N {
+            t.namespace_peers.insert(&ns, (nanos[i], &peer(i as u8 + 1)))?;
+            i += 1;
+        }
+        t.namespace_peers.insert(&other, (7u64, &peer(0x77)))?;
+        Ok(())
+    }).unwrap();
+    let pb = s.u8();
+    s.assume(pb >= 1 && pb as usize <= N + 1); // N+1 = a new peer
+    let now_delta = s.u64();
+    s.assume(now_delta >= 1 && now_delta < (1 << 40));
+    set_clock_nanos(prev + now_delta); // the clock is strictly increasing between registrations (stated assumption)
+    let r = store.register_useful_peer(NamespaceId::from(&ns), peer(pb));
+    ck!(s, r.is_ok(), "registering a peer for a known document succeeds");
+    // expected list, most recent first
+    let mut want = [[0u8; 32]; 5];
+    let mut wn = 0;
+    want[0] = peer(pb);
+    wn += 1;
+    let mut i = N;
+    while i > 0 {
+        i -= 1;
+        if (i as u8 + 1) != pb && wn < 5 {
+            want[wn] = peer(i as u8 + 1);
+            wn += 1;
+        }
+    }
+    let got = store.get_sync_peers(&NamespaceId::from(&ns)).unwrap();
+    let mut gl = [[0u8; 32]; 6];
+    let mut gn = 0;
+    if let Some(it) = got {
+        for p in it {
+            if gn < 6 {
+                gl[gn] = p;
+            }
+            gn += 1;
+        }
+    }
+    cv!(s, pb as usize <= N || N == 0, "e2_peers_step: re-registration of a stored peer");
+    cv!(s, pb as usize == N + 1, "e2_peers_step: a new peer");
+    ck!(s, gn == wn, "the list holds at most five peers, without duplicates");
+    ck!(s, gl[..5] == want[..], "the peers are the most recently registered distinct ones, most recent first");
+    // the other document is untouched; an unknown document is refused and nothing changes
+    let o = store.get_sync_peers(&NamespaceId::from(&other)).unwrap().map(|it| it.collect::<Vec<_>>());
+    ck!(s, o == Some(vec![peer(0x77)]), "another document's peer list is unaffected");
+    let unknown = store.register_useful_peer(NamespaceId::from(&[0x99u8; 32]), peer(1));
+    ck!(s, unknown.is_err(), "registering for an unknown document fails");
+    std::mem::forget(unknown);
+    let none = store.get_sync_peers(&NamespaceId::from(&[0x99u8; 32])).unwrap();
+    ck!(s, none.is_none(), "and records nothing");
+    std::mem::forget(store);
+}
+
+/// all head rows `(namespace, author) -> (timestamp, key)` of a namespace
+pub fn dump_heads(store: &mut Store, ns: NamespaceId) -> (usize, [Option<([u8; 32], u64)>; 3]) {
+    let mut out = [None; 3];
+    let mut n = 0;
+    let it = store.get_latest_for_each_author(ns).unwrap();
+    for r in it {
+        let (a, ts, _k) = r.unwrap();
+        if n < 3 {
+            out[n] = Some((a.to_bytes(), ts));
+        }
+        n += 1;
+    }
+    (n, out)
+}
+
+/// C13 stored heads: after `put` of entries arriving in ANY timestamp order, the reported head of
+/// an author is the greatest timestamp among that author's entries held.  Two entries by author A
+/// at unrelated keys (no pruning involved), plus one by author B.
+pub fn e2_heads_after_put<S: Src>(s: &mut S) {
+    let ns = NamespaceId::from(&NS);
+    let mut store = fresh_store();
+    let (t1, t2, tb) = (s.u64(), s.u64(), s.u64());
+    let e1 = mk_entry(NS, AUTHOR_A, b"a", t1, false, 1);
+    let e2 = mk_entry(NS, AUTHOR_A, b"b", t2, false, 2);
+    let eb = mk_entry(NS, AUTHOR_B, b"a", tb, false, 3);
+    let mut inst = StoreInstance::new(ns, &mut store);
+    let _ = inst.put(e1).unwrap();
+    let _ = inst.put(eb).unwrap();
+    let _ = inst.put(e2).unwrap();
+    let (n, heads) = dump_heads(&mut store, ns);
+    cv!(s, t2 < t1, "e2_heads_after_put: the later arrival is older");
+    ck!(s, n == 2, "one head per author");
+    let ha = heads.iter().flatten().find(|h| h.0 == AUTHOR_A).map(|h| h.1);
+    let hb = heads.iter().flatten().find(|h| h.0 == AUTHOR_B).map(|h| h.1);
+    ck!(s, ha == Some(t1.max(t2)), "the reported head is the greatest timestamp among the author's entries, whatever the arrival order");
+    ck!(s, hb == Some(tb), "another author's head is unaffected");
+    // news detection goes through the same heads
+    let mut theirs = crate::AuthorHeads::default();
+    let probe = s.u64();
+    theirs.insert(AuthorId::from(&AUTHOR_A), probe);
+    let news = store.has_news_for_us(ns, &theirs).unwrap().is_some();
+    ck!(s, news == (probe > t1.max(t2)), "a head report is news exactly if it names a strictly newer timestamp than the author's newest entry");
+    std::mem::forget(store);
+    std::mem::forget(theirs);
+}
+
+/// C16: removing a document erases all of it and only it.  Two documents N and N+ (the byte-order
+/// successor of N; N ends in 0xFF when LASTFF) with one record, index row, head, capability, peer
+/// and policy each.  After `remove_replica(N)`: nothing of N is observable, everything of N+ is
+/// untouched, re-creating N yields an empty document.
+pub fn e2_remove_replica<S: Src, const LASTFF: bool>(s: &mut S) {
+    let mut n1 = [0x20u8; 32];
+    let mut n2 = [0x20u8; 32];
+    if LASTFF {
+        n1[31] = 0xFF;
+        n2[30] = 0x21;
+        n2[31] = 0x00;
+    } else {
+        n2[31] = 0x21;
+    }
+    let (ns1, ns2) = (NamespaceId::from(&n1), NamespaceId::from(&n2));
+    let mut store = fresh_store();
+    let (t1, t2) = (s.u64(), s.u64());
+    let k1 = if s.bool() { MENU[1] } else { MENU[6] }; // "a" or "\xff"
+    let e1 = mk_entry(n1, AUTHOR_A, k1, t1, false, 1);
+    let e2 = mk_entry(n2, AUTHOR_A, b"a", t2, false, 2);
+    inject_namespace(&mut store, n1, 2, n1);
+    inject_namespace(&mut store, n2, 2, n2);
+    {
+        let mut i1 = StoreInstance::new(ns1, &mut store);
+        let _ = i1.put(e1).unwrap();
+        let mut i2 = StoreInstance::new(ns2, &mut store);
+        let _ = i2.put(e2).unwrap();
+    }
+    set_clock_nanos(5);
+    store.register_useful_peer(ns1, peer(1)).unwrap();
+    store.register_useful_peer(ns2, peer(2)).unwrap();
+    store.set_download_policy(&ns1, super::DownloadPolicy::NothingExcept(vec![])).unwrap();
+    store.set_download_policy(&ns2, super::DownloadPolicy::NothingExcept(vec![])).unwrap();
+
+    // refused while open
+    store.open_replicas.insert(ns1);
+    let refused = store.remove_replica(&ns1);
+    ck!(s, refused.is_err(), "removing a document is refused while it is open");
+    std::mem::forget(refused);
+    ck!(s, dump_records(&mut store, ns1).0 == 1, "a refused removal changes nothing");
+    store.close_replica(ns1);
+
+    let r = store.remove_replica(&ns1);
+    ck!(s, r.is_ok(), "removing a closed document succeeds");
+    ck!(s, dump_records(&mut store, ns1).0 == 0, "no entry of the removed document remains");
+    ck!(s, store.get_exact(ns1, AuthorId::from(&AUTHOR_A), k1, true).unwrap().is_none(), "point lookups find nothing of the removed document");
+    ck!(s, dump_heads(&mut store, ns1).0 == 0, "no author head of the removed document remains");
+    ck!(s, store.get_sync_peers(&ns1).unwrap().is_none(), "no useful peer of the removed document remains");
+    ck!(s, matches!(store.get_download_policy(&ns1).unwrap(), super::DownloadPolicy::EverythingExcept(ref v) if v.is_empty()), "the removed document's policy is gone");
+    ck!(s, matches!(store.load_replica_info(&ns1), Err(super::OpenError::NotFound)), "the removed document cannot be opened");
+    // the neighbour is untouched
+    let (n, rows) = dump_records(&mut store, ns2);
+    ck!(s, n == 1 && rows[0].map(|r| r.ts) == Some(t2), "the neighbouring document's entries are untouched");
+    ck!(s, dump_heads(&mut store, ns2).1[0] == Some((AUTHOR_A, t2)), "the neighbouring document's heads are untouched");
+    ck!(s, store.get_sync_peers(&ns2).unwrap().map(|i| i.collect::<Vec<_>>()) == Some(vec![peer(2)]), "the neighbouring document's peers are untouched");
+    ck!(s, matches!(store.get_download_policy(&ns2).unwrap(), super::DownloadPolicy::NothingExcept(_)), "the neighbouring document's policy is untouched");
+    // re-creation yields an empty document
+    inject_namespace(&mut store, n1, 2, n1);
+    ck!(s, dump_records(&mut store, ns1).0 == 0 && dump_heads(&mut store, ns1).0 == 0, "re-creating the document yields an empty document (no entries, no heads)");
+    cv!(s, true, "e2_remove_replica: reached the end");
+    std::mem::forget(store);
+}
+
+// ---------------------------------------------------------------------------------------------
+// C05 queries
+// ---------------------------------------------------------------------------------------------
+use super::super::{AuthorFilter, FlatQuery, Query, QueryKind, SingleLatestPerKeyQuery, SortBy, SortDirection};
+
+/// C05: `get_many` returns exactly what the query describes, for an injected three-row state.
+/// Concrete per instance: the three key shapes K1..K3 (rows 1,3 by author A, row 2 by author B —
+/// row 3 switches to B when its key equals K1), the filter key KF, the query kind (LATEST), the key
+/// filter kind (KFK: 0 any, 1 exact, 2 prefix) and the sort key (KEYSORT).  Symbolic: every
+/// timestamp, deletion-marker flag, hash byte; author filter (any/A/B), direction, include_empty,
+/// offset 0..3, limit none/0..3; presence of a stale by-key index row (an entry that was pruned).
+pub fn e2_query<S: Src, const K1: usize, const K2: usize, const K3: usize, const KF: usize, const LATEST: bool, const KFK: u8, const KEYSORT: bool>(
+    s: &mut S,
+) {
+    let ns = NamespaceId::from(&NS);
+    let mut store = fresh_store();
+    let a3 = if K3 == K1 { AUTHOR_B } else { AUTHOR_A };
+    let specs: [([u8; 32], &[u8]); 3] = [(AUTHOR_A, MENU[K1]), (AUTHOR_B, MENU[K2]), (a3, MENU[K3])];
+    let mut views = [None; 3];
+    let mut entries = Vec::new();
+    let mut i = 0;
+    while i < 3 {
+        let e = mk_entry(NS, specs[i].0, specs[i].1, s.u64(), s.bool(), s.u8());
+        views[i] = Some(RowView::of(&e));
+        entries.push(e);
+        i += 1;
+    }
+    s.assume(!(K2 == K3 && a3 == AUTHOR_B)); // unique (author, key)
+    inject(&mut store, &entries);
+    if s.bool() {
+        // a stale index row: (key "b", author A) has no record (it was removed by a prefix deletion)
+        if K1 != 4 && (K3 != 4 || a3 != AUTHOR_A) {
+            store.modify(|t| {
+                t.records_by_key.insert((&NS, MENU[4], &AUTHOR_A), ())?;
+                Ok(())
+            }).unwrap();
+        }
+    }
+    // the query
+    let af = s.u8() % 3;
+    let filter_author = match af {
+        0 => AuthorFilter::Any,
+        1 => AuthorFilter::Exact(AuthorId::from(&AUTHOR_A)),
+        _ => AuthorFilter::Exact(AuthorId::from(&AUTHOR_B)),
+    };
+    let filter_key = match KFK {
+        0 => KeyFilter::Any,
+        1 => KeyFilter::Exact(Bytes::copy_from_slice(MENU[KF])),
+        _ => KeyFilter::Prefix(Bytes::copy_from_slice(MENU[KF])),
+    };
+    let desc = s.bool();
+    let include_empty = s.bool();
+    let offset = (s.u8() % 4) as u64;
+    let lim = s.u8() % 5;
+    let limit = if lim == 4 { None } else { Some(lim as u64) };
+    let query = Query {
+        kind: if LATEST {
+            QueryKind::SingleLatestPerKey(SingleLatestPerKeyQuery {})
+        } else {
+            QueryKind::Flat(FlatQuery { sort_by: if KEYSORT { SortBy::KeyAuthor } else { SortBy::AuthorKey } })
+        },
+        filter_author,
+        filter_key,
+        limit,
+        offset,
+        include_empty,
+        sort_direction: if desc { SortDirection::Desc } else { SortDirection::Asc },
+    };
+    // run the real iterator
+    let mut got = [None; 4];
+    let mut gn = 0;
+    let it = store.get_many(ns, query).unwrap();
+    for r in it {
+        let e = r.unwrap();
+        if gn < 4 {
+            got[gn] = Some(RowView::of(&e));
+        }
+        gn += 1;
+        std::mem::forget(e);
+    }
+    // oracle over the three rows
+    let key_ok = |v: &RowView| match KFK {
+        0 => true,
+        1 => v.key() == MENU[KF],
+        _ => v.key().starts_with(MENU[KF]),
+    };
+    let author_ok = |v: &RowView| match af {
+        0 => true,
+        1 => v.author == AUTHOR_A,
+        _ => v.author == AUTHOR_B,
+    };
+    let mut cand: [Option<RowView>; 3] = [None; 3];
+    let mut i = 0;
+    while i < 3 {
+        let v = views[i].unwrap();
+        let mut keep = key_ok(&v);
+        if LATEST {
+            // grouping by key over ALL authors, then the author filter: keep v iff no other matching row
+            // with the same key has a greater timestamp (ties: see below)
+            let mut j = 0;
+            while j < 3 {
+                if j != i {
+                    let w = views[j].unwrap();
+                    if key_ok(&w) && w.key() == v.key() && w.ts > v.ts {
+                        keep = false;
+                    }
+                }
+                j += 1;
+            }
+            keep = keep && author_ok(&v);
+        } else {
+            keep = keep && author_ok(&v);
+        }
+        keep = keep && (include_empty || !v.empty);
+        if keep {
+            cand[i] = Some(v);
+        }
+        i += 1;
+    }
+    // ties (equal greatest timestamps for one key) make "the latest entry" ambiguous: outside this harness
+    if LATEST {
+        let mut i = 0;
+        while i < 3 {
+            let mut j = i + 1;
+            while j < 3 {
+                let (v, w) = (views[i].unwrap(), views[j].unwrap());
+                s.assume(!(v.key() == w.key() && v.ts == w.ts));
+                j += 1;
+            }
+            i += 1;
+        }
+    }
+    // sort: (author, key) or (key, author); latest-per-key is always by key
+    let by_key = LATEST || KEYSORT;
+    let less = |x: &RowView, y: &RowView| {
+        let o = if by_key { (x.key(), &x.author[..]).cmp(&(y.key(), &y.author[..])) } else { (&x.author[..], x.key()).cmp(&(&y.author[..], y.key())) };
+        if desc {
+            o == std::cmp::Ordering::Greater
+        } else {
+            o == std::cmp::Ordering::Less
+        }
+    };
+    let mut sorted: [Option<RowView>; 3] = [None; 3];
+    let mut sn = 0;
+    let mut used = [false; 3];
+    let mut round = 0;
+    while round < 3 {
+        let mut best: Option<usize> = None;
+        let mut i = 0;
+        while i < 3 {
+            if !used[i] {
+                if let Some(v) = cand[i] {
+                    best = match best {
+                        None => Some(i),
+                        Some(b) => {
+                            if less(&v, &cand[b].unwrap()) {
+                                Some(i)
+                            } else {
+                                Some(b)
+                            }
+                        }
+                    };
+                }
+            }
+            i += 1;
+        }
+        if let Some(b) = best {
+            used[b] = true;
+            sorted[sn] = cand[b];
+            sn += 1;
+        }
+        round += 1;
+    }
+    let mut want = [None; 4];
+    let mut wn = 0;
+    let mut i = 0;
+    while i < sn {
+        if (i as u64) >= offset && limit.map(|l| (wn as u64) < l).unwrap_or(true) {
+            want[wn] = sorted[i];
+            wn += 1;
+        }
+        i += 1;
+    }
+    cv!(s, wn >= 2, "e2_query: at least two entries expected");
+    cv!(s, sn == 3 && wn < 3, "e2_query: window cuts the result");
+    ck!(s, gn == wn, "the query returns exactly as many entries as match, after offset and limit");
+    ck!(s, got == want, "the query returns exactly the matching entries, in the requested order, after skipping the offset and truncated to the limit");
+    std::mem::forget(store);
+}
+
+/// C05: point lookups agree with the state: `get_exact` finds exactly the stored entry for
+/// (author, key), deletion markers only when asked for.
+pub fn e2_get_exact<S: Src, const K1: usize, const KQ: usize>(s: &mut S) {
+    let ns = NamespaceId::from(&NS);
+    let mut store = fresh_store();
+    let (t1, d1) = (s.u64(), s.bool());
+    let e1 = mk_entry(NS, AUTHOR_A, MENU[K1], t1, d1, 1);
+    let e2 = mk_entry(NS, AUTHOR_B, MENU[KQ], s.u64(), false, 2);
+    inject(&mut store, &[e1, e2]);
+    let include_empty = s.bool();
+    let got = store.get_exact(ns, AuthorId::from(&AUTHOR_A), MENU[KQ], include_empty).unwrap();
+    let want = K1 == KQ && (include_empty || !d1);
+    cv!(s, K1 != KQ || want, "e2_get_exact: found");
+    ck!(s, got.is_some() == want, "a point lookup finds exactly the entry stored for that author and key (deletion markers only on request)");
+    if let Some(e) = &got {
+        ck!(s, e.timestamp() == t1 && e.key() == MENU[K1], "and returns that entry");
+    }
+    std::mem::forget(got);
+    std::mem::forget(store);
+}
